@@ -21,7 +21,7 @@ import (
 
 func c14Stream(w *W) {
 	kind := []string{"pair", "req", "sub", "bus", "push", "pull", "rep", "star", "surveyor"}[w.Choose(simrt.SShape, 9)]
-	tran := []string{"sim", "simipc", "tcp", "ipc"}[w.Choose(simrt.SShape, 4)] // tcp / ipc: the real dialer code on the simulated network
+	tran := w.simFallback([]string{"sim", "simipc", "tcp", "ipc"}[w.Choose(simrt.SShape, 4)]) // tcp / ipc: the real dialer code on the simulated network
 	r := []time.Duration{5 * time.Millisecond, 20 * time.Millisecond}[w.Choose(simrt.SShape, 2)]
 	M := []time.Duration{0, r, 4 * r}[w.Choose(simrt.SShape, 3)]
 	nplan := 2 + w.Choose(simrt.SShape, 6)
